@@ -8,6 +8,7 @@ import (
 
 	"github.com/tobgu/qframe"
 	"github.com/tobgu/qframe/config/csv"
+	"github.com/tobgu/qframe/config/groupby"
 
 	"verif/harness/core"
 	"verif/harness/model"
@@ -29,6 +30,11 @@ type rtCase struct {
 	Header    bool        `json:"header"`
 	Columns   []string    `json:"columns,omitempty"`
 	EmptyNull bool        `json:"empty_null"`
+	// Battery: the frame read back also goes through the latent-state battery (battery.go): follow-up operations on it
+	Battery bool `json:"battery,omitempty"`
+	// AggAs: the frame written is the result of GroupBy(first column).Aggregate(count of the second column As <AggAs>)
+	// (a column that got its name from an aggregation), written with Columns in reverse order
+	AggAs string `json:"agg_as,omitempty"`
 }
 
 func c13Alphabet(k model.Kind, reduced bool) []model.Cell {
@@ -132,6 +138,16 @@ func runRTCase(c rtCase) *core.Failure {
 		return core.Failf("could not build frame: %s", in.ErrText)
 	}
 	in.AdoptMeta(c.Frame)
+	if c.AggAs != "" && len(in.Cols) >= 2 {
+		qf = qf.GroupBy(groupby.Columns(in.Cols[0].Name), groupby.Null(true)).Aggregate(qframe.Aggregation{Fn: "count", Column: in.Cols[1].Name, As: c.AggAs}).Sort(qframe.Order{Column: in.Cols[0].Name})
+		meta := in
+		in = model.Observe(qf)
+		if in.Err {
+			return core.Failf("could not aggregate: %s", in.ErrText)
+		}
+		in.AdoptMeta(meta)
+		c.Columns = []string{c.AggAs, in.Cols[0].Name}
+	}
 	var opts []csv.ToConfigFunc
 	if !c.Header {
 		opts = append(opts, csv.Header(false))
@@ -218,6 +234,15 @@ func runRTCase(c rtCase) *core.Failure {
 	again := qframe.ReadCSV(bytes.NewReader(out), rc...)
 	if d := model.Diff(want, model.Observe(again)); d != "" {
 		return core.Failf("a second ReadCSV with the same option values differs: %s\n %s", d, desc)
+	}
+	if c.Battery {
+		what := "the frame read back by ReadCSV: " + desc
+		if f := latentBattery(again, enums, what); f != nil {
+			return f
+		}
+		if f := bookkeepingBattery(again, what); f != nil {
+			return f
+		}
 	}
 	// the frame returned by the first read is a value of its own: reading again must not change it
 	if now := model.Observe(firstRead); now.String() != back.String() {
@@ -411,6 +436,42 @@ func c13Run(ctx *core.Ctx) {
 					}
 				}
 			})
+		}
+	}
+	// family E: latent state. Three columns named s, n, a (not in alphabetical order) of every type combination in
+	// every written order; the frame read back goes through the follow-up battery. And frames whose column got its name
+	// from an aggregation (As), written with Columns in another order.
+	for _, k1 := range kinds {
+		for _, k2 := range kinds {
+			for pi, p := range [][]int{{0, 1, 2}, {0, 2, 1}, {1, 0, 2}, {1, 2, 0}, {2, 0, 1}, {2, 1, 0}} {
+				for _, hdr := range []bool{true, false} {
+					if !ctx.Mine() {
+						continue
+					}
+					ks := []model.Kind{k1, k2, model.Int}
+					ns := []string{"s", "n", "a"}
+					f := model.Frame{N: 2}
+					for ci := 0; ci < 3; ci++ {
+						al := c13Alphabet(ks[ci], true)
+						f.Cols = append(f.Cols, mkCol(ns[ci], ks[ci], []model.Cell{al[1], al[0]}))
+					}
+					var order []string
+					if pi > 0 {
+						for _, j := range p {
+							order = append(order, ns[j])
+						}
+					}
+					exec(rtCase{Frame: f, Shape: int(ctx.Index() % int64(model.NShapes)), Header: hdr, Columns: order, EmptyNull: true, Battery: true}, "read-back-frame-through-the-battery")
+				}
+			}
+		}
+		for _, as := range []string{"n", "cnt", "a b"} {
+			if !ctx.Mine() {
+				continue
+			}
+			al := c13Alphabet(k1, true)
+			f := model.Frame{N: 3, Cols: []model.Col{mkCol("g", k1, []model.Cell{al[1], al[0], al[1]}), mkCol("x", model.Int, []model.Cell{model.I(1), model.I(2), model.I(3)})}}
+			exec(rtCase{Frame: f, Shape: int(ctx.Index() % int64(model.NShapes)), Header: true, EmptyNull: true, AggAs: as}, "aggregated-as-written-in-another-order")
 		}
 	}
 	// family B: three columns of every type combination, reduced alphabets, every column permutation for the writer
